@@ -26,7 +26,7 @@ func init() {
 		Assumptions: []string{"mixed kinds, Boolean ordering, offset vs no offset, number vs Quantity and singular/plural unit spellings are only subject to the laws (the statement does not define them)",
 			"a partial-precision DateTime cannot be shifted by an offset: pairs with different offsets are decided only at second precision or finer"},
 		Run:    runC05,
-		Checks: map[string]func(*core.Env, []json.RawMessage){"pair": replayC05Pair, "coll": replayC05Coll, "codes": replayC05Codes},
+		Checks: map[string]func(*core.Env, []json.RawMessage){"pair": replayC05Pair, "coll": replayC05Coll, "codes": replayC05Codes, "litop": replayC05LitOp},
 		Threshold: func(m *core.Merged) []string {
 			var r []string
 			for _, k := range []string{"model-decided", "law-only", "kind:Integer", "kind:Decimal", "kind:String", "kind:Date", "kind:DateTime", "kind:Time", "kind:Quantity", "kind:Boolean", "kind:Complex", "carrier:fhir", "literal-path", "transitivity", "collection", "collection-complex", "precision-mismatch-empty", "offset-normalised", "code-element"} {
@@ -513,11 +513,91 @@ func runC05(env *core.Env) {
 			}
 		}
 	}
+	// one compiled comparison with a literal operand, evaluated over every pool value in turn
+	perKind := map[string]int{}
+	for li := 0; li < n; li++ {
+		if p.vals[li].Carrier != "sys" {
+			continue
+		}
+		perKind[p.vals[li].M.Kind]++
+		if env.Quick() && perKind[p.vals[li].M.Kind] > 3 {
+			continue
+		}
+		for _, op := range c05Ops {
+			for _, left := range []bool{false, true} {
+				idx++
+				if env.Mine(idx) {
+					c05LiteralOperand(env, li, op, left)
+				}
+			}
+		}
+	}
 	// transitivity of < within each kind (shard 0 re-evaluates the `<` matrix of each kind: small)
 	if env.Shard == 0 || env.NShards == 1 {
 		c05Transitivity(env, p)
 	}
 	c05Collections(env)
+}
+
+// c05LiteralOperand: `%a op L` (or `L op %a`) compiled once and evaluated with every pool value as %a, forwards then
+// backwards; each outcome must be the outcome of the all-variable form on the same two values.
+func c05LiteralOperand(env *core.Env, li int, op string, literalLeft bool) {
+	defer env.In("litop", li, op, literalLeft)()
+	p := c05Build0(env)
+	src := "%a " + op + " " + p.vals[li].Src
+	if literalLeft {
+		src = p.vals[li].Src + " " + op + " %a"
+	}
+	env.Case()
+	env.Cover("literal-operand")
+	// one freshly compiled expression per starting point: the first value of each (kind, carrier) class comes first once
+	var starts []int
+	seen := map[string]bool{}
+	for i, v := range p.vals {
+		if k := v.M.Kind + "/" + v.Carrier; !seen[k] {
+			seen[k] = true
+			starts = append(starts, i)
+		}
+	}
+	for _, st := range starts {
+		c05LiteralRun(env, p, src, li, op, literalLeft, st)
+	}
+}
+
+func c05LiteralRun(env *core.Env, p *c05Pool, src string, li int, op string, literalLeft bool, st int) {
+	ex, cr := fx.Compile(env, src)
+	if ex == nil {
+		env.Violatef("C05/literal-operand/does-not-compile", "`%s`: %s", src, cr.Short())
+		return
+	}
+	n := len(p.vals)
+	for k := 0; k < 2*n; k++ {
+		x := (st + k) % n
+		if k >= n {
+			x = (st + 2*n - 1 - k) % n
+		}
+		got := c05Obs(fx.Evaluate(env, ex, nil, evalopts.EnvVariable("a", p.runtime[x])))
+		var ref fx.Res
+		if literalLeft {
+			ref = c05EvalOp(env, op, p.runtime[li], p.runtime[x])
+		} else {
+			ref = c05EvalOp(env, op, p.runtime[x], p.runtime[li])
+		}
+		if want := c05Obs(ref); got != want {
+			env.Violatef("C05/literal-operand-vs-env/"+op, "`%s` with %%a = %s[%s] (evaluation %d of one compiled expression) gives %s, `%%a %s %%b` on the same two values gives %s", src, p.vals[x].Src, p.vals[x].Carrier, k+1, got, op, want)
+			return
+		}
+	}
+}
+
+func replayC05LitOp(env *core.Env, a []json.RawMessage) {
+	var li int
+	var op string
+	var left bool
+	json.Unmarshal(a[0], &li)
+	json.Unmarshal(a[1], &op)
+	json.Unmarshal(a[2], &left)
+	c05LiteralOperand(env, li, op, left)
 }
 
 func c05Converse(env *core.Env, p *c05Pool, i, j int, ab, ba map[string]string) {
